@@ -33,7 +33,7 @@
     most once.  `synchronize`/`retire` are NOT restricted to threads outside a section (a thread that
     synchronizes inside its own section deadlocks; safety does not depend on it).
 
-  Ghost state: `clock` (one tick per action), `secStart`, `retiredAt`, `disposed`, `acqClock`, `refClock`,
+  Ghost state: `clock` (one tick per action), `secStart`, `retiredAt`, `disposed`, `acqClock`, `refClock`, `faddClock`,
   `mustWait`, `place`, `destroyed`.
 -/
 import CdsVerif.Base.Machine
@@ -114,6 +114,7 @@ structure St where
   disposed : Obj → Nat
   acqClock : Nat                 -- clock of the last mutex acquisition
   refClock : Nat                 -- clock of the last FIRST flip
+  faddClock : Nat                -- clock of the last m_nCurEpoch.fetch_add
   mustWait : Tid → Option Nat    -- snapshot of secStart at the last mutex acquisition
   place : Obj → Place
   destroyed : Bool               -- Destruct has completed
@@ -136,6 +137,7 @@ def init (buffered : Bool) (nthreads cap bufCap : Nat) : St where
   disposed := fun _ => 0
   acqClock := 0
   refClock := 0
+  faddClock := 0
   mustWait := fun _ => none
   place := fun _ => .fresh
   destroyed := false
@@ -217,7 +219,8 @@ def step (s : St) (t : Tid) : Option (St × Ev) :=
                      clock := s.clock + 1 }, ⟨"xchg", "lock", "0", "1"⟩)
     | some _ => some ({ s with clock := s.clock + 1 }, ⟨"xchg", "lock", "1", "1"⟩)
   | .fadd own =>
-    some ({ s with epoch := s.epoch + 1, pc := upd s.pc t (.flip ⟨own, s.epoch⟩ false), clock := s.clock + 1 },
+    some ({ s with epoch := s.epoch + 1, faddClock := s.clock, pc := upd s.pc t (.flip ⟨own, s.epoch⟩ false),
+                   clock := s.clock + 1 },
           ⟨"add", "epoch", toString s.epoch, "1"⟩)
   | .flip w r =>
     some ({ s with gctl := !s.gctl, refClock := if r then s.refClock else s.clock,
